@@ -14,7 +14,7 @@ from .. import simenv
 from ..core import Lab, Violation, exc_violation
 from . import inject_reg as R
 
-RELS = ["byname", "prefix", "both", "absent", "wrongtype", "subclass", "falsy", "preset", "init", "private", "generic", "comp_ref", "wrongtype_prefix", "callable", "shared", "wrongtype_both", "tunable", "init_some"]
+RELS = ["byname", "prefix", "both", "absent", "wrongtype", "subclass", "falsy", "preset", "init", "private", "generic", "comp_ref", "wrongtype_prefix", "callable", "shared", "wrongtype_both", "tunable", "init_some", "narrowed", "widened"]
 CTOR_RELS = ["byname", "prefix", "absent", "wrongtype", "comp_earlier", "comp_later", "private", "falsy", "callable", "subclass", "wrongtype_prefix", "wrongtype_both"]
 TYPES = ["Inj", "Other", "int", "str", "tuple", "float"]
 FALSY = {"int": 0, "str": "", "tuple": (), "float": 0.0, "bool": False}
@@ -23,7 +23,7 @@ GENERICS = ["List[int]", "list[int]", "Tuple[int, int]", "Dict[str, int]"]
 
 def ann_obj(name):
     return {
-        "Inj": R.Inj, "Other": R.Other, "int": int, "str": str, "tuple": tuple, "float": float, "bool": bool,
+        "Inj": R.Inj, "SubInj": R.SubInj, "Other": R.Other, "int": int, "str": str, "tuple": tuple, "float": float, "bool": bool,
         "List[int]": typing.List[int], "list[int]": list[int], "Tuple[int, int]": typing.Tuple[int, int], "Dict[str, int]": typing.Dict[str, int],
         "partial": __import__("functools").partial,
         # only used on attributes that already have a value (those are never looked at by the injector)
@@ -129,6 +129,10 @@ class Plan:
             self._put(n, fresh(ann, s))
         if rel == "init_some" and n not in self.robot_attrs:
             self._put(n, fresh(ann, s))
+        if rel in ("narrowed", "widened") and n not in self.robot_attrs:
+            # the attribute is annotated in a base class and again, with another type, in the component class: the
+            # component class's own annotation is the one that counts; the robot holds a plain Inj
+            self._put(n, R.Inj())
         for o in owners:
             self.requests.append({"owner": o, "attr": n, "ann": ann, "rel": rel, "phase": "ctor" if phase == "ctor" else "attr", "cls": k, "par": a.get("par", 0)})
 
@@ -212,6 +216,8 @@ def build(plan):
                 late.append((target, a["n"], int(a["ann"][6:])))
             else:
                 target[a["n"]] = ann_obj(a["ann"])
+            if a.get("base_ann") and target is ann:
+                bann[a["n"]] = ann_obj(a["base_ann"])
             if a["rel"] == "tunable":
                 from magicbot import tunable as _tunable
 
@@ -333,7 +339,7 @@ def write_mode(mode):
 
 
 _I = st.integers
-_ATTR = st.tuples(_I(0, 17), _I(0, 5), _I(0, 3), st.booleans())
+_ATTR = st.tuples(_I(0, 19), _I(0, 5), _I(0, 3), st.booleans())
 _CTOR = st.tuples(_I(0, 11), _I(0, 5))
 _CLASS = st.tuples(st.lists(_ATTR, max_size=4), st.lists(_CTOR, max_size=2), st.lists(_ATTR, max_size=1), st.booleans())
 _CASE = st.tuples(st.lists(_CLASS, min_size=1, max_size=3), st.lists(_I(0, 2), min_size=1, max_size=4), _I(0, 4),
@@ -366,6 +372,10 @@ def decode(code):
             a["ann"] = ["Optional[Inj]", "Union[int, str]"][type_c % 2]  # a common way to annotate an attribute with a default
         elif rel == "init_some":
             a["par"] = gen_c % 2
+        elif rel == "narrowed":
+            a["ann"], a["base_ann"] = "SubInj", "Inj"
+        elif rel == "widened":
+            a["ann"], a["base_ann"] = "Inj", "SubInj"
         elif rel == "tunable":
             a["ann"] = "float"  # kP: float = tunable(0.5) - an attribute that has a value, not an injection request
         elif rel == "private":
@@ -393,7 +403,7 @@ def decode(code):
             cls["attrs"].append(a)
         for j, c in enumerate(base_c):
             a = dec_attr(k, j, c, allow_ref=False, tag="b")
-            if a["n"] in seen or a["rel"] in ("init", "init_some"):
+            if a["n"] in seen or a["rel"] in ("init", "init_some", "narrowed", "widened"):
                 continue
             seen.add(a["n"])
             cls["base_attrs"].append(a)
@@ -436,7 +446,7 @@ def decode(code):
         seen = set()
         for j, c in enumerate(mode_c):
             a = dec_attr("m", j, c)
-            if a["rel"] in ("init", "init_some") or a["n"] in seen:
+            if a["rel"] in ("init", "init_some", "narrowed", "widened") or a["n"] in seen:
                 continue
             seen.add(a["n"])
             attrs.append(a)
